@@ -111,6 +111,15 @@ pub fn k_close(fd: c_int, Tracked(l): Tracked<&mut L>) -> (r: c_int)
             final(l).conn_of == old(l).conn_of, final(l).lingering == old(l).lingering, final(l).reads == old(l).reads, final(l).got == old(l).got,
 { unimplemented!() }
 // libc::bind(fd, &sockaddr, len): may fail; on success the socket is bound to the path in sun_path
+// libc::close(fd) issued by an owner's Drop: the descriptor leaves both sets; closing an open descriptor succeeds
+#[verifier::external_body]
+pub fn k_close_owned(fd: c_int, Tracked(l): Tracked<&mut L>) -> (r: c_int)
+    requires old(l).open.contains(fd) && old(l).owned.contains(fd), //@@clause:unix.server_drop/requires.closes_only_its_own_open_descriptor
+    ensures r == 0, final(l).open == old(l).open.remove(fd), final(l).owned == old(l).owned.remove(fd),
+            final(l).bound == old(l).bound.remove(fd), final(l).listening == old(l).listening.remove(fd), final(l).connected == old(l).connected.remove(fd),
+            final(l).conn_of == old(l).conn_of, final(l).lingering == old(l).lingering, final(l).reads == old(l).reads, final(l).got == old(l).got,
+{ unimplemented!() }
+pub mod thread { use super::*; #[verifier::external_body] pub fn panicking() -> bool { unimplemented!() } }
 #[verifier::external_body]
 pub fn k_bind(fd: c_int, addr: &sockaddr_un, len: usize, Tracked(l): Tracked<&mut L>) -> (r: c_int)
     ensures final(l).open == old(l).open, final(l).owned == old(l).owned,
